@@ -13,6 +13,7 @@ import IclModel.TreeWire
 import IclModel.Build
 import IclModel.Gen.Cp037
 import IclModel.Gen.Split
+import IclModel.ApiWire
 open Icl Icl.Wire
 
 def findRec (n : String) : Option RecLayout := Gen.all.find? (fun L => L.name == n)
@@ -130,6 +131,9 @@ def handle (line : String) : String :=
       match L.parseRec id ⟨2000, 1, 1⟩ (fromHex h) {} with
       | .panic => "panic"
       | .done v => "ok " ++ dumpVals (fieldKinds L) v
+  | ["api", h] => Icl.Api.Wire.runApi h
+  | ["apifrom", st, h] => Icl.Api.Wire.runApiFrom st h
+  | ["apiconc", st, rq, sc] => Icl.Api.Wire.runConc st rq sc
   | _ => "bad-op"
 
 partial def loop (h : IO.FS.Stream) (out : IO.FS.Stream) : IO Unit := do
